@@ -10,7 +10,7 @@ THEOREMS = [
     "XcmModel.C16.C16_quiet_when_idle", "XcmModel.C16.C16_readable_when_met",
     "XcmModel.C16.C16_btcp_ready_events", "XcmModel.C16.C16_btcp_terminal_rings",
     "XcmModel.C16.C16_server_events", "XcmModel.C16.C16_ux_events",
-    "XcmModel.C16btls.C16_btls_idle_silent", "XcmModel.C16btls.C16_btls_quiet_after_eagain", "XcmModel.C16btls.C16_btls_bell_reason",
+    "XcmModel.C16btls.C16_btls_idle_silent", "XcmModel.C16btls.C16_btls_idle_flush_only", "XcmModel.C16btls.C16_btls_blocked_send_is_accepted", "XcmModel.C16btls.C16_btls_quiet_after_eagain", "XcmModel.C16btls.C16_btls_quiet_after_eagain_retained", "XcmModel.C16btls.C16_btls_bell_reason",
 ]
 
 
@@ -28,7 +28,9 @@ def run(ctx):
                 "transports' update operations (exhaustive).  sys_quiet: live connections of all seven transports after mixed "
                 "traffic with partial I/O, globally quiescent; the socket fd sampled over a settle window for condition 0, for "
                 "RECEIVABLE after receive reported EAGAIN, for a server awaiting ACCEPTABLE; readable at once when the condition is "
-                "already met (SENDABLE idle, message/connection already there); only POLLIN ever reported; xcm_fd constant.")
+                "already met (SENDABLE idle, message/connection already there); only POLLIN ever reported; xcm_fd constant.  STUCK: a byte-stream send blocked under back-pressure and not retried; RONLY: "
+                "after xcm_send reported EAGAIN the sender awaits RECEIVABLE only and answers every wake-up with xcm_receive - its fd "
+                "must be quiet while the peer does not read (300 ms) and after everything was delivered.")
     exe = xpoll.build()
     ops = []
     nh = 150 if quick else 5000
@@ -84,6 +86,8 @@ def run(ctx):
             cmds.append("Q %s %d %d" % (proto, ctx.seed * 100 + sd, 2 if quick else 6))
     for proto in ("btcp", "btls"):
         cmds.append("STUCK " + proto)
+    for proto in sysattr.PROTOS:
+        cmds.append("RONLY " + proto)
     rc, out, err = sysattr.run(qexe, cmds, ctx, timeout=900)
     ctx.traces += 1
     if rc != 0 or len(out) != len(cmds):
@@ -95,6 +99,24 @@ def run(ctx):
         rep = {"harness": "sys_quiet", "ops": [c], "impl_out": o}
         if o.startswith("fail"):
             ctx.corr_break("sys_quiet", "%s: %s" % (c, o), rep)
+            continue
+        if c.startswith("RONLY"):
+            f = dict(x.split("=") for x in o.split())
+            proto = c.split()[1]
+            ctx.nontriv((c, f["refused"], int(f["wakeA"]) > 3, f["accepted"] == f["delivered"]))
+            ctx.count("ronly.%s.wakeups_while_blocked" % proto, int(f["wakeA"]))
+            if f["refused"] != "1" or f["rerr"] != "0":
+                ctx.notes.append("sys_quiet %s: scenario not reached: %s" % (c, o))
+            else:
+                if int(f["wakeA"]) > 3:
+                    ctx.violation("sys_quiet:monitor:spurious-readable:receive-only-after-backpressure:%s" % proto,
+                                  "after xcm_send reported EAGAIN the application awaits RECEIVABLE only and answers every wake-up with "
+                                  "xcm_receive (EAGAIN); while the peer is not reading its fd was readable %s times in 300 ms: %s" % (f["wakeA"], o), rep)
+                if f["accepted"] != f["delivered"]:
+                    ctx.notes.append("sys_quiet %s: accepted output not delivered (C04's subject): %s" % (c, o))
+                if f["spin_after"] != "0":
+                    ctx.violation("sys_quiet:monitor:spurious-readable:receive-only-after-flush:%s" % proto,
+                                  "everything was delivered, RECEIVABLE awaited, xcm_receive says EAGAIN, yet the fd stays readable: %s" % o, rep)
             continue
         if c.startswith("STUCK"):
             f = dict(x.split("=") for x in o.split())
